@@ -1,5 +1,7 @@
 """Re-run one recorded replay file against the current tree."""
+import importlib
 import json
+
 from engine import core
 
 
@@ -8,15 +10,18 @@ def main(pid, path):
   rep = d["replay"]
   ctx = core.Context(pid, "quick", d.get("seed", 0), "model_checking")
   ctx.known = []
-  if "behaviour" in rep:
+  mod = importlib.import_module("props." + pid)
+  if hasattr(mod, "replay_one"):
+    mod.replay_one(ctx, rep)        # property-specific (trace-validation findings)
+  elif "behaviour" in rep:
     core.replay(ctx, rep["adapter"], [rep["behaviour"]], params=rep.get("params"), procs=1)
   else:
-    print("replay file has no behaviour (trace-validation finding): rerun the check")
+    print("replay file has no behaviour and props.%s has no replay_one(): rerun the check" % pid)
     return 2
   if ctx.violations:
     sig, r = ctx.violations[0]
     print("VIOLATION property=%s replay=%s" % (pid, path))
-    print("  step %s expected %s observed %s" % (r["failing_step"], r["expected"], r["observed"]))
+    print("  signature: %s" % core.canon(sig))
     return 1
   print("replay passes on the current tree")
   return 0
